@@ -30,7 +30,8 @@ for p in props:
 engines = {}
 for pid, s in reg.items():
     for e in s.engines:
-        engines.setdefault(e.name, []).append(pid)
+        if pid not in engines.setdefault(e.name, []):
+            engines[e.name].append(pid)
 m = {
     "version": 1,
     "setup_cmd": "./check setup",
